@@ -80,6 +80,27 @@ def generate_path(lean_dir: str):
     if guard_line is None or join_line is None or not guard_line < join_line:
         raise P.Untranslatable("_load_data: the confinement guard `os.path.basename(filename) != filename -> raise` "
                                "does not precede os.path.join(directory, filename)")
+    # round 6: the tuple of resource directories is translated: the environment variable, its DEFAULT literal and the
+    # sub-directory of the package (an edit of the default - e.g. to "" = the working directory - changes
+    # `cmapPathDefault`, and `C15_cmap_dirs_absolute` is about it)
+    paths = [n for n in ast.walk(load) if isinstance(n, ast.Assign) and len(n.targets) == 1 and
+             isinstance(n.targets[0], ast.Name) and n.targets[0].id == "cmap_paths"]
+    if len(paths) != 1 or not isinstance(paths[0].value, ast.Tuple) or len(paths[0].value.elts) != 2:
+        raise P.Untranslatable("_load_data: cmap_paths is not a tuple of two directories")
+    e0, e1 = paths[0].value.elts
+    if not (isinstance(e0, ast.Call) and ast.unparse(e0.func) == "os.environ.get" and len(e0.args) == 2 and not e0.keywords and
+            all(isinstance(a, ast.Constant) and isinstance(a.value, str) for a in e0.args)):
+        raise P.Untranslatable("_load_data: first resource directory is not os.environ.get(<literal>, <literal>)")
+    env_name, env_default = e0.args[0].value, e0.args[1].value
+    if not (isinstance(e1, ast.Call) and ast.unparse(e1.func) == "os.path.join" and len(e1.args) == 2 and
+            ast.unparse(e1.args[0]) == "os.path.dirname(__file__)" and isinstance(e1.args[1], ast.Constant) and
+            isinstance(e1.args[1].value, str)):
+        raise P.Untranslatable("_load_data: second resource directory is not os.path.join(os.path.dirname(__file__), <literal>)")
+    pkg_sub = e1.args[1].value
+    loops = [n for n in ast.walk(load) if isinstance(n, ast.For) and ast.unparse(n.iter) == "cmap_paths" and
+             ast.unparse(n.target) == "directory"]
+    if len(loops) != 1:
+        raise P.Untranslatable("_load_data: expected one loop `for directory in cmap_paths`")
     umap = P.find_function(cm, "CMapDB.get_unicode_map")
     upre, usuf = _split_format(_find_format(umap, "to-unicode"))
     im = P.parse_file("pdfminer/image.py")
@@ -124,6 +145,11 @@ def generate_path(lean_dir: str):
     out.append('/-- `"to-unicode-%s" % name` (get_unicode_map). -/\n')
     out.append(f"def toUnicodePrefix : List UInt8 := {P.lean_bytes(upre.encode('latin-1'))}\n")
     out.append(f"def toUnicodeSuffix : List UInt8 := {P.lean_bytes(usuf.encode('latin-1'))}\n\n")
+    out.append("/-- `cmap_paths` of `_load_data`: `(os.environ.get(cmapPathEnv, cmapPathDefault),\n"
+               "    os.path.join(os.path.dirname(__file__), cmapPkgSubdir))`. -/\n")
+    out.append(f"def cmapPathEnv : List UInt8 := {P.lean_bytes(env_name.encode('latin-1'))}\n")
+    out.append(f"def cmapPathDefault : List UInt8 := {P.lean_bytes(env_default.encode('latin-1'))}\n")
+    out.append(f"def cmapPkgSubdir : List UInt8 := {P.lean_bytes(pkg_sub.encode('latin-1'))}\n\n")
     out.append("/-- The character that replaces NUL and path separators in image names. -/\n")
     out.append(f"def imageReplacement : UInt8 := {ord(nul[0][2])}\n\n")
     out.append("/-- The characters of an image name that are replaced (NUL, then os.sep / os.altsep on POSIX). -/\n")
